@@ -154,7 +154,7 @@ def gaussian_syn_likelihood_ghurye_olkin(ssx, ssy):
     """
     n, d = ssx.shape
     mu = np.mean(ssx, 0)
-    Sigma = np.cov(np.transpose(ssx))
+    Sigma = np.atleast_2d(np.cov(np.transpose(ssx)))
     ssy = ssy.reshape((-1, 1))
     mu = mu.reshape((-1, 1))
 
@@ -164,9 +164,12 @@ def gaussian_syn_likelihood_ghurye_olkin(ssx, ssy):
 
     try:
         _, logdet_sigma = np.linalg.slogdet(Sigma)
+        # The estimator is zero unless psi is positive definite
+        np.linalg.cholesky(psi)
         _, logdet_psi = np.linalg.slogdet(psi)
         A = wcon(d, n-2) - wcon(d, n-1) - 0.5*d*math.log(1 - 1/n)
-        B = -0.5 * (n-d-2) * (math.log(n-1) + logdet_sigma)
+        # log det of (n-1) * Sigma
+        B = -0.5 * (n-d-2) * (d * math.log(n-1) + logdet_sigma)
         C = 0.5 * (n-d-3) * logdet_psi
         loglik = -0.5*d*math.log(2*math.pi) + A + B + C
     except np.linalg.LinAlgError:
